@@ -1228,7 +1228,7 @@ pub fn run(args: Args) {
     run.assume("kanidm is deterministic given the same database, server uuid and clock: the original and the restored server run the same start-up (initialise_helper + reindex) at the same simulated clock before search answers, later dumps and the next change id are compared");
     run.assume("the start-up of this pre-release build re-applies the last migration on every start; what start-up changes on the original is not attributed to restore");
     run.assume("searches use negation only as And(positive.., AndNot(x)); other negation shapes are index-plan dependent in this tree (C01) and are left to C01");
-    let histories_per_worker: u64 = args.tier.pick(2, 40) * 16 / (args.workers.max(1) as u64).min(16);
+    let histories_per_worker: u64 = args.tier.pick(2, 19) * 16 / (args.workers.max(1) as u64).min(16);
     let cfg = CaseCfg {
         ops: args.tier.pick(70, 90),
         searches: args.tier.pick(120, 200),
@@ -1274,7 +1274,7 @@ pub fn run(args: Args) {
     let c = run.acc.counters.clone();
     let g = |k: &str| c.get(k).copied().unwrap_or(0);
     let nh = g("histories");
-    run.require(nh >= args.tier.pick(24, 500), "too few histories completed");
+    run.require(nh >= args.tier.pick(24, 250), "too few histories completed");
     run.require(g("restore.plain.ok") >= nh * 9 / 10 && g("restore.gzip.ok") >= nh * 9 / 10, "too few successful restores (positive control)");
     run.require(g("searches_compared") >= 100 * nh, "fewer than 100 searches compared per history");
     run.require(g("searches_with_nonempty_answer") * 5 >= g("searches_compared"), "too few searches with a non-empty answer");
